@@ -73,11 +73,14 @@ def _run_cases(args: tuple) -> list[dict]:
             l1_key=ks.node_bytes(shape["l1"]),
             l2_key=ks.node_bytes(shape["l2"]),
         )
+        # seed material of another L0 interval covers nothing (Gkdi!CoversReq): every 9th case asks with a key identifier
+        # whose L0 is before / after the envelope's
+        dl0 = (-3, -1, 1, 2)[(cid // 9) % 4] if cid % 9 == 4 else 0
         kid = KeyIdentifier(
-            version=1, flags=0, l0=ks.l0, l1=r1, l2=r2, root_key_identifier=ks.rkid, key_info=nonce,
+            version=1, flags=0, l0=ks.l0 + dl0, l1=r1, l2=r2, root_key_identifier=ks.rkid, key_info=nonce,
             domain_name="d.test", forest_name="f.test",
         )
-        line = {"id": cid, "hi": hi, "l0": ks.l0, "r1": r1, "r2": r2, **shape, "calls": [], "out": ["?"], "exc": "", "kek": True, "ncalls": 0}
+        line = {"id": cid, "hi": hi, "l0": ks.l0, "rl0": ks.l0 + dl0, "r1": r1, "r2": r2, **shape, "calls": [], "out": ["?"], "exc": "", "kek": True, "ncalls": 0}
         with taps.KdfTap(budget=256) as tap:
             try:
                 kek = env.get_kek(kid)
